@@ -86,6 +86,7 @@ def main():
     cause, sm = sys.argv[1], sys.argv[2]
     kw = json.loads(sys.argv[3])
     std = tu.get_tqdm(None)
+    start = dict(children=len(children()), zombies=zombies())
     cycle(cause, sm, **kw)            # warm-up
     gc.collect(); time.sleep(0.3)
     base = dict(fds=len(os.listdir('/proc/self/fd')), threads=sorted(t.name for t in threading.enumerate()), children=len(children()), zombies=zombies(),
@@ -94,7 +95,7 @@ def main():
     gc.collect(); time.sleep(0.5)
     after = dict(fds=len(os.listdir('/proc/self/fd')), threads=sorted(t.name for t in threading.enumerate()), children=len(children()), zombies=zombies(),
                  handler=repr(signal.getsignal(signal.SIGINT)), lock=id(std.get_lock()))
-    print(json.dumps({'base': base, 'after': after, 'outs': outs, 'extra_threads_after_with': EXTRA[1:]}))
+    print(json.dumps({'start': start, 'base': base, 'after': after, 'outs': outs, 'extra_threads_after_with': EXTRA[1:]}))
 if __name__ == '__main__':
     main()
 '''
@@ -162,6 +163,12 @@ def leak_suite(chk, quick=False):
                 b, a = d['base'], d['after']
                 if a['children'] > b['children']:
                     chk.violation('no_worker_process_alive_after_exit', case, {'children_before': b['children'], 'after': a['children']}, 'no child process left', input_class='real_children_' + cause)
+                st = d.get('start') or {}
+                # (spawn and forkserver leave multiprocessing's own resource tracker / fork server behind: fork and threads only)
+                if st and sm in ('fork', 'threading') and (a['children'] > st['children'] or a.get('zombies', 0) > st.get('zombies', 0)):
+                    # (not only "no more than after the first cycle": nothing at all, compared with before the first pool)
+                    chk.violation('no_worker_process_alive_after_exit', case, {'before_the_first_pool': st, 'after_the_last': {'children': a['children'], 'defunct': a.get('zombies')}},
+                                  'no process of the pool is left behind, alive or defunct', input_class='real_leftover_' + cause)
                 if a.get('zombies', 0) > b.get('zombies', 0):
                     chk.violation('no_worker_process_alive_after_exit', case, {'defunct_children_before': b.get('zombies'), 'after': a.get('zombies')},
                                   'no process of the pool is left behind, not even one that has ended and was never waited for', input_class='real_zombies_' + cause)
